@@ -105,6 +105,21 @@ class Model:
   def fit_args(self, i, extra):
     dt = self.data[i]
     args = list(E.fit_args(self.name, dt))
+    if self.name == 'RCA' and i % 2 == 1:
+      # a layout in which EVERY point belongs to a chunk (no -1): consecutive same-class points, chunks of 2-3
+      ch = np.empty(dt.n, dtype=int)
+      cid = 0
+      for c in np.unique(dt.y):
+        idx = np.flatnonzero(dt.y == c)
+        for j in range(0, len(idx), 2):
+          grp = idx[j:j + 2] if len(idx) - j != 3 else idx[j:j + 3]
+          if len(grp) == 1:
+            cid -= 1
+          ch[grp] = cid
+          cid += 1
+          if len(grp) == 3:
+            break
+      args[1] = ch
     kw = {}
     if extra == 'bounds' and self.name in ('ITML', 'ITML_Supervised'):
       kw['bounds'] = np.array([0.0, 4.0]) if i % 2 == 0 else np.array([0.7, 3.0])
